@@ -5,9 +5,21 @@ import os
 
 HERE = os.path.dirname(os.path.dirname(os.path.abspath(__file__)))
 
-HOOK_COMMITS = ["6e1d5dd", "092527b"]
+HOOK_COMMITS = ["6e1d5dd", "092527b", "70942f2", "7e1ebbc"]
 
 CHECKS = {
+    "C03": dict(
+        text="TLC checks the SCF control model (get_error data flow, active set, frozen rows, iteration caps, SP2 inner loop, epilogue) exhaustively: mask and returned flags truthful, no re-activation, converged rows frozen, bounded, liveness Terminates; spec mutants must be refuted. A lattice of real single-point jobs (molecules/padded batches/ions/UHF x fixed/adaptive/Pulay x SP2 tolerances x thresholds x start densities x caps) runs with SCF hooks on; every solver span is validated against the model by TLC (SCFTrace), and the self-consistency predicates (symmetry, trace, charge sum, idempotency, commutation, re-diagonalisation, energy functional) are evaluated at API return for every molecule reported converged; an SP2 loop exceeding its iteration budget counts as a call that does not return.",
+        note="Predicate bounds are C*max(scf_eps, effective SP2 tolerance)+floor with solver-aware constants calibrated on the unchanged tree (ratios recorded in the evidence); the Fock matrix in the predicates is the code's own, built from the returned density. KSA SCF (undocumented converger 3) is not covered.",
+        tech="explicit TLA+ model (SCF) checked by TLC incl. liveness; hook traces of the real solvers validated by TLC (SCFTrace); projection predicates at API return",
+        ref="DESIGN.md §4 C03",
+    ),
+    "C09": dict(
+        text="Partial: decides (b) fixed point at every buffer phase and (c) the executed recurrence is the published one for k=3..9 incl. after restart. TLC checks XLHistory (the paper's table as integers: sum rule, fixed point; slot->age alignment, overwrite-oldest, window, newest-after-resume) exhaustively for k=3..9 with crash/resume at every step; two alignment mutants must be refuted. The real XL_BOMD/KSA_XL_BOMD one_step, _propagate_P and run_from_checkpoint are observed (one-hot decoding of the applied weights, slot written, slot resumed) for every k, 3m+2 steps and a restart at buffer phases; the traces are validated against XLHistory by TLC. Monitored: XL energy/forces = SCF ones at P = converged D; fixed point on real tensors.",
+        note="Not decided: linear stability over the response range, dt^2 scaling of the shadow energy, convergence to BO (numeric). c=0.95 delta mixing modelled as coded. History handling observed with a stub electronic structure.",
+        tech="explicit TLA+ model (XLHistory) checked by TLC; traces of the real history buffer validated by TLC (XLHistoryTrace)",
+        ref="DESIGN.md §4 C09",
+    ),
     "C10": dict(
         text="TLC checks the run-loop model MDRun exhaustively (design constants) over cadences x run lengths x checkpoint cadences with up to 2 (quick) / 3 (thorough) crashes of both kinds (exception, kill) at every program point: checkpoint never partial, never ahead of what is durable, final HDF5 = reference, every XYZ frame exactly once, liveness. The crash schedules TLC explored are exported and replayed on the real run loop (forked children, armed hooks, real run_from_checkpoint, repeated crashes); every recorded trace with the driver's disk projection after each crash is validated against the same model by TLC (MDRunTrace). Tier B repeats this with the real electronic structure for every engine; row values are compared with an uninterrupted reference run.",
         note="Process death only (no power loss; the code never fsyncs). Tier A uses a history-sensitive stub electronic structure; tier B the real one on small molecules with tolerance 1e-6 (bitwise observed). Crash points are the hook-addressable ones plus syscall-level kills in the thorough tier. The model follows the first molid's files; others are compared at the end.",
